@@ -119,4 +119,63 @@ def expand6 (base p : Nat) : List Str :=
 
 def matches6 (base p a : Nat) : Bool := (expand6 base p).any (fun pat => glob pat (render6 a))
 
+/-! ## The code-shaped constants as parameters (tied to the source by `Gen/Cidr.lean`, `Oblig/C18.lean`)
+
+`expand4` / `expand6` bake in the alignment step (8 bits = one decimal group for IPv4, 4 bits = one
+hexadecimal digit for IPv6), the number of groups, the separator and the wildcard.  Below they are
+data, so that the translator can regenerate them from `SigmaCIDRExpression.expand`. -/
+
+/-- the constants of the IPv4 branch: `prefix_diff = (alignSub - prefixlen % alignMod) % alignWrap`,
+`wildcard_group = subnet.prefixlen // groupDiv`, compared with `0` and `groups` -/
+structure Shape4 where
+  alignSub : Nat
+  alignMod : Nat
+  alignWrap : Nat
+  groupDiv : Nat
+  groups : Nat
+  sep : Char
+  wildcard : Str
+deriving Repr, DecidableEq
+
+def Shape4.std : Shape4 := ⟨8, 8, 8, 8, 4, '.', ['*']⟩
+
+def joinSep (c : Char) : List Str → Str
+  | [] => []
+  | [x] => x
+  | x :: xs => x ++ c :: joinSep c xs
+
+def expand4S (s : Shape4) (base p : Nat) : List Str :=
+  let diff := (s.alignSub - p % s.alignMod) % s.alignWrap
+  let p' := p + diff
+  let g := p' / s.groupDiv
+  (List.range (2 ^ diff)).map fun k =>
+    let sub := base + k * 2 ^ (32 - p')
+    if g == 0 then s.wildcard
+    else if g < s.groups then joinSep s.sep (((octets sub).take g).map dec) ++ (s.sep :: s.wildcard)
+    else render4 sub
+
+def matches4S (s : Shape4) (base p a : Nat) : Bool :=
+  (expand4S s base p).any (fun pat => glob pat (render4 a))
+
+/-- the constants of the IPv6 branch -/
+structure Shape6 where
+  alignSub : Nat
+  alignMod : Nat
+  alignWrap : Nat
+  wildcard : Str
+deriving Repr, DecidableEq
+
+def Shape6.std : Shape6 := ⟨4, 4, 4, ['*']⟩
+
+def expand6By (s : Shape6) (base p : Nat) : List Str :=
+  let diff := (s.alignSub - p % s.alignMod) % s.alignWrap
+  let p' := p + diff
+  (List.range (2 ^ diff)).map fun k =>
+    let sub := base + k * 2 ^ (128 - p')
+    let first := render6 sub
+    let last := render6 (sub + 2 ^ (128 - p') - 1)
+    match firstDiff first last 0 with
+    | some i => first.take i ++ s.wildcard
+    | none => first
+
 end SigmaVerif.Cidr
